@@ -208,7 +208,7 @@ CHECKS = {
                         ],
         "required_classes": {"quick": ["producer:stand-alone-on-a-used-pool", "file:exact-block-multiple", "tree:empty-file-beside-non-empty", "comp:gzip", "comp:brotli", "tree:no-files"],
                              "thorough": ["file:exact-block-multiple", "tree:empty-file-beside-non-empty", "comp:gzip", "comp:brotli", "tree:no-files", "tree:symlinks"]},
-        "stages": [rapid("signature", "TestProp", 4800, 192000, qs=16, ts=16, qt=600, tt=5400)],
+        "stages": [rapid("signature", "TestProp", 4800, 192000, qs=16, ts=16, qt=600, tt=5400, schedule_dependent=True)],
     },
     "C05": {
         "title": "Validation reports every deviation from the signed build and locates it",
